@@ -6,7 +6,7 @@ CONSTANTS
   Retention = 1
   MinDelay = 0
   QScale = "Q128_15"
-  Deep = FALSE
+  Deep = TRUE
 INIT Init
 NEXT Next
 CHECK_DEADLOCK FALSE
